@@ -100,23 +100,24 @@ AddCol(h, s, t, n, at, d) ==
        ELSE /\ SetG(h, s, t, InsCols(g, IF at = AtEnd THEN NC(g) + 1 ELSE at, n, d)) /\ UNCHANGED disk
             /\ Ev([op |-> "addcol", h |-> h, s |-> s, t |-> t, n |-> n, at |-> at, d |-> d, out |-> "ok"])
 
-\* deleting is specified only inside the documented domain: at least one row/column remains and the
-\* deleted block lies inside the table (see DESIGN.md section 3, "only documented domains are generated")
+\* deleting: a block that does not lie inside the table is refused; deleting ALL rows / columns is outside the documented
+\* domain and not specified (see DESIGN.md section 3, "only documented domains are generated")
 DelRow(h, s, t, n, at) ==
   /\ Addr(h, s, t)
   /\ LET g == G(h, s, t) a == IF at = AtEnd THEN NR(g) - n + 1 ELSE at IN
-     IF at # AtEnd /\ (at < 1 \/ at > NR(g))
+     \* refused: a start outside the table, or a count that reaches past its end (nothing is deleted then)
+     IF (at # AtEnd /\ (at < 1 \/ at > NR(g))) \/ a < 1 \/ a + n - 1 > NR(g)
        THEN Refuse /\ Ev([op |-> "delrow", h |-> h, s |-> s, t |-> t, n |-> n, at |-> at, out |-> "IndexError"])
-       ELSE /\ NR(g) - n >= 1 /\ a >= 1 /\ a + n - 1 <= NR(g)
+       ELSE /\ NR(g) - n >= 1
             /\ SetG(h, s, t, DelRows(g, a, n)) /\ UNCHANGED disk
             /\ Ev([op |-> "delrow", h |-> h, s |-> s, t |-> t, n |-> n, at |-> at, out |-> "ok"])
 
 DelCol(h, s, t, n, at) ==
   /\ Addr(h, s, t)
   /\ LET g == G(h, s, t) a == IF at = AtEnd THEN NC(g) - n + 1 ELSE at IN
-     IF at # AtEnd /\ (at < 1 \/ at > NC(g))
+     IF (at # AtEnd /\ (at < 1 \/ at > NC(g))) \/ a < 1 \/ a + n - 1 > NC(g)
        THEN Refuse /\ Ev([op |-> "delcol", h |-> h, s |-> s, t |-> t, n |-> n, at |-> at, out |-> "IndexError"])
-       ELSE /\ NC(g) - n >= 1 /\ a >= 1 /\ a + n - 1 <= NC(g)
+       ELSE /\ NC(g) - n >= 1
             /\ SetG(h, s, t, DelCols(g, a, n)) /\ UNCHANGED disk
             /\ Ev([op |-> "delcol", h |-> h, s |-> s, t |-> t, n |-> n, at |-> at, out |-> "ok"])
 
